@@ -78,6 +78,107 @@ Proof.
   - destruct (mem l labels); simpl; [apply IH|assumption].
 Qed.
 
+Lemma nj_sdowhile t (exec : st -> list label -> stmt -> st * sres val) e body :
+  (forall s0 LS x, In x body -> nj_s t (snd (exec s0 LS x))) ->
+  forall n labels s0, nj_s t (snd (sdowhile eval truthy exec n labels e body s0)).
+Proof.
+  intros H. induction n as [|n IH]; intros labels s0; simpl; [exact I|].
+  pose proof (nj_slist t exec body H s0) as Hb.
+  destruct (slist exec s0 body) as [s1 [c|]]; simpl in *; [|exact I].
+  assert (Hag : nj_s t (snd match eval s1 e with
+                             | (s', inl v) => if truthy v then sdowhile eval truthy exec n labels e body s' else (s', SDone CNormal)
+                             | (s', inr x) => (s', SDone (CThrow x)) end)).
+  { destruct (eval s1 e) as [s' [v|x]]; simpl; [|exact I]. destruct (truthy v); simpl; [apply IH|exact I]. }
+  destruct c; simpl in *; try exact I; try exact Hag.
+  - destruct (mem l labels); simpl; [exact I|assumption].
+  - destruct (mem l labels); simpl; [exact Hag|assumption].
+Qed.
+
+Lemma nj_sfor t (exec : st -> list label -> stmt -> st * sres val) test upd body :
+  (forall s0 LS x, In x body -> nj_s t (snd (exec s0 LS x))) ->
+  forall n labels s0, nj_s t (snd (sfor eval truthy poll exec n labels test upd body s0)).
+Proof.
+  intros H. induction n as [|n IH]; intros labels s0; cbn [sfor]; [exact I|].
+  assert (Hgo : forall s'', nj_s t (snd (
+     match slist exec s'' body with
+     | (s1, SDone c) =>
+        match c with
+        | CNormal => match upd with
+                     | Some u => match eval s1 u with
+                                 | (s2, inl _) => sfor eval truthy poll exec n labels test upd body s2
+                                 | (s2, inr x) => (s2, SDone (CThrow x)) end
+                     | None => sfor eval truthy poll exec n labels test upd body s1 end
+        | CBreak t0 => if mem t0 labels then (s1, SDone CNormal) else (s1, SDone c)
+        | CContinue t0 => if mem t0 labels then
+                     match upd with
+                     | Some u => match eval s1 u with
+                                 | (s2, inl _) => sfor eval truthy poll exec n labels test upd body s2
+                                 | (s2, inr x) => (s2, SDone (CThrow x)) end
+                     | None => sfor eval truthy poll exec n labels test upd body s1 end
+                   else (s1, SDone c)
+        | _ => (s1, SDone c)
+        end
+     | r => r end))).
+  { intros s''. pose proof (nj_slist t exec body H s'') as Hb.
+    destruct (slist exec s'' body) as [s1 [c|]]; simpl in *; [|exact I].
+    assert (Hag : nj_s t (snd match upd with
+                     | Some u => match eval s1 u with
+                                 | (s2, inl _) => sfor eval truthy poll exec n labels test upd body s2
+                                 | (s2, inr x) => (s2, SDone (CThrow x)) end
+                     | None => sfor eval truthy poll exec n labels test upd body s1 end)).
+    { destruct upd as [u|]; [|apply IH]. destruct (eval s1 u) as [s2 [v|x]]; simpl; [apply IH|exact I]. }
+    destruct c; simpl in *; try exact I; try exact Hag.
+    - destruct (mem l labels); simpl; [exact I|assumption].
+    - destruct (mem l labels); simpl; [exact Hag|assumption]. }
+  assert (Hrun : forall s', nj_s t (snd (
+     match body with
+     | [] => match poll s' with (s'', Some x) => (s'', SDone (CThrow x)) | (s'', None) =>
+              match slist exec s'' body with
+              | (s1, SDone c) =>
+                 match c with
+                 | CNormal => match upd with
+                              | Some u => match eval s1 u with
+                                          | (s2, inl _) => sfor eval truthy poll exec n labels test upd body s2
+                                          | (s2, inr x) => (s2, SDone (CThrow x)) end
+                              | None => sfor eval truthy poll exec n labels test upd body s1 end
+                 | CBreak t0 => if mem t0 labels then (s1, SDone CNormal) else (s1, SDone c)
+                 | CContinue t0 => if mem t0 labels then
+                              match upd with
+                              | Some u => match eval s1 u with
+                                          | (s2, inl _) => sfor eval truthy poll exec n labels test upd body s2
+                                          | (s2, inr x) => (s2, SDone (CThrow x)) end
+                              | None => sfor eval truthy poll exec n labels test upd body s1 end
+                            else (s1, SDone c)
+                 | _ => (s1, SDone c)
+                 end
+              | r => r end end
+     | _ => match slist exec s' body with
+              | (s1, SDone c) =>
+                 match c with
+                 | CNormal => match upd with
+                              | Some u => match eval s1 u with
+                                          | (s2, inl _) => sfor eval truthy poll exec n labels test upd body s2
+                                          | (s2, inr x) => (s2, SDone (CThrow x)) end
+                              | None => sfor eval truthy poll exec n labels test upd body s1 end
+                 | CBreak t0 => if mem t0 labels then (s1, SDone CNormal) else (s1, SDone c)
+                 | CContinue t0 => if mem t0 labels then
+                              match upd with
+                              | Some u => match eval s1 u with
+                                          | (s2, inl _) => sfor eval truthy poll exec n labels test upd body s2
+                                          | (s2, inr x) => (s2, SDone (CThrow x)) end
+                              | None => sfor eval truthy poll exec n labels test upd body s1 end
+                            else (s1, SDone c)
+                 | _ => (s1, SDone c)
+                 end
+              | r => r end
+     end))).
+  { intros s'. destruct body as [|b0 bs]; [|apply Hgo].
+    destruct (poll s') as [s'' [x|]]; [exact I|apply Hgo]. }
+  destruct test as [e|]; [|apply Hrun].
+  destruct (eval s0 e) as [s' [v|x]]; simpl; [|exact I].
+  destruct (truthy v); [apply Hrun|exact I].
+Qed.
+
 Lemma nj_scatch t blk r1 c :
   nj_s t (snd r1) -> (forall cb s0, c = Some cb -> nj_s t (snd (blk s0 cb))) ->
   nj_s t (snd (scatch (val:=val) (expr:=expr) (st:=st) recatch blk r1 c)).
@@ -110,6 +211,13 @@ Proof.
     destruct (truthy v); [now apply IH|].
     destruct s2 as [s2|]; [now apply IH|exact I].
   - rewrite targets_while in Ht. apply nj_swhile. intros; apply IH. eapply targets_list_false; eauto.
+  - rewrite targets_dowhile in Ht. apply nj_sdowhile. intros; apply IH. eapply targets_list_false; eauto.
+  - rewrite targets_for in Ht.
+    assert (Hf : forall s1, nj_s t (snd (sfor eval truthy poll (exec_s fuel) fuel (LS ++ [0]) test upd body s1))).
+    { intros s1. apply nj_sfor. intros; apply IH. eapply targets_list_false; eauto. }
+    destruct (poll s0) as [sq [xq|]]; [exact I|].
+    destruct init as [i|]; [|apply Hf].
+    destruct (eval sq i) as [s1 [v|x]]; [apply Hf|exact I].
   - simpl in *. apply Nat.eqb_neq in Ht. exact Ht.
   - simpl in *. apply Nat.eqb_neq in Ht. exact Ht.
   - destruct (eval s0 e) as [s1 [v|x]]; exact I.
@@ -332,6 +440,176 @@ Proof.
     + repeat split; simpl; try exact I; assumption.
 Qed.
 
+(* shared tail: what both loop forms do with the body's outcome, given that "again" is simulated *)
+Lemma sim_loop_tail G LS (s1 : st) (ro : ores val) (rs : sres val) (acc : oval val)
+      (agO : oval val -> st * list label * ores val) (agS : st * sres val) :
+  is_res acc = false ->
+  rel [] ro rs ->
+  (forall g, In g G -> nj_s g rs) ->
+  (forall acc', is_res acc' = false -> simres0 LS (agO acc') agS) ->
+  simres0 LS
+    (match ro with
+     | ONorm o =>
+        match o with
+        | OBrk t => if mem t ((G ++ LS) ++ [0]) then (s1, [], ONorm acc) else (s1, [], ONorm o)
+        | OCont t => if mem t ((G ++ LS) ++ [0]) then agO acc else (s1, [], ONorm o)
+        | ORet _ => (s1, [], ONorm o)
+        | OEmpty => agO acc
+        | OVal _ => agO o
+        end
+     | r => (s1, [], r) end)
+    (match rs with
+     | SDone c =>
+        match c with
+        | CBreak t => if mem t (LS ++ [0]) then (s1, SDone CNormal) else (s1, SDone c)
+        | CContinue t => if mem t (LS ++ [0]) then agS else (s1, SDone c)
+        | CNormal => agS
+        | _ => (s1, SDone c)
+        end
+     | r => (s1, r) end).
+Proof.
+  intros Hacc Hrel Hnj Hag.
+  destruct ro as [o|v'|]; destruct rs as [c|]; simpl in Hrel; try contradiction.
+  - destruct o; destruct c; simpl in Hrel; try contradiction; subst.
+    + apply Hag; assumption.
+    + apply Hag; reflexivity.
+    + rename l0 into t. rewrite !mem_app.
+      destruct (mem t G) eqn:EG.
+      { apply mem_In in EG. specialize (Hnj _ EG). simpl in Hnj. congruence. }
+      destruct (mem t LS) eqn:EL; destruct (mem t [0]) eqn:E0; cbn [orb].
+      * repeat split; simpl. destruct acc; simpl in *; try exact I; discriminate.
+      * repeat split; simpl. destruct acc; simpl in *; try exact I; discriminate.
+      * repeat split; simpl. destruct acc; simpl in *; try exact I; discriminate.
+      * repeat split; simpl. rewrite EL. reflexivity.
+    + rename l0 into t. rewrite !mem_app.
+      destruct (mem t G) eqn:EG.
+      { apply mem_In in EG. specialize (Hnj _ EG). simpl in Hnj. congruence. }
+      cbn [orb]. destruct (mem t LS || mem t [0]) eqn:EL.
+      * apply Hag; assumption.
+      * repeat split; simpl; reflexivity.
+    + repeat split; simpl; reflexivity.
+  - destruct c; try contradiction. subst. repeat split; simpl; reflexivity.
+  - repeat split; simpl; exact I.
+Qed.
+
+Lemma sim_dowhile fuel (IH : IHfuel fuel) e (body : list stmt) G LS :
+  wf_list body = true ->
+  (forall g, In g G -> targets_list g body = false) ->
+  forall n s0 acc, is_res acc = false ->
+    simres0 LS (odowhile eval truthy (exec_o fuel) n ((G ++ LS) ++ [0]) e body s0 [] acc)
+               (sdowhile eval truthy (exec_s fuel) n (LS ++ [0]) e body s0).
+Proof.
+  intros Hwf HG. induction n as [|n IHn]; intros s0 acc Hacc; simpl.
+  - repeat split; simpl; exact I.
+  - pose proof (sim_list fuel IH body OEmpty s0 eq_refl Hwf) as Hs.
+    assert (Hnj : forall g, In g G -> nj_s g (snd (slist (exec_s fuel) s0 body))).
+    { intros g Hg. apply nj_slist_exec. auto. }
+    destruct (olist (exec_o fuel) s0 [] OEmpty body) as [[s1 L1] ro]. destruct (slist (exec_s fuel) s0 body) as [s2 rs].
+    destruct Hs as [Hst [Hrel HL]]. simpl in *. subst s2 L1.
+    pose proof (sim_loop_tail G LS s1 ro rs acc
+      (fun acc' => match eval s1 e with
+                   | (s', inr x) => (s', [], OExn x)
+                   | (s', inl v) => if truthy v then odowhile eval truthy (exec_o fuel) n ((G ++ LS) ++ [0]) e body s' [] acc'
+                                    else (s', [], ONorm acc') end)
+      (match eval s1 e with
+       | (s', inr x) => (s', SDone (CThrow x))
+       | (s', inl v) => if truthy v then sdowhile eval truthy (exec_s fuel) n (LS ++ [0]) e body s' else (s', SDone CNormal)
+       end) Hacc Hrel Hnj) as T.
+    destruct ro as [o|v'|]; destruct rs as [c|]; simpl in Hrel; try contradiction; apply T;
+      intros acc' Hacc'; destruct (eval s1 e) as [s' [v|x]]; try (repeat split; simpl; reflexivity);
+      (destruct (truthy v); [apply IHn; assumption|repeat split; simpl; destruct acc'; simpl in *; try exact I; discriminate]).
+Qed.
+
+Lemma sim_for fuel (IH : IHfuel fuel) test upd (body : list stmt) G LS :
+  wf_list body = true ->
+  (forall g, In g G -> targets_list g body = false) ->
+  forall n s0 acc, is_res acc = false ->
+    simres0 LS (ofor eval truthy poll (exec_o fuel) n ((G ++ LS) ++ [0]) test upd body s0 [] acc)
+               (sfor eval truthy poll (exec_s fuel) n (LS ++ [0]) test upd body s0).
+Proof.
+  intros Hwf HG. induction n as [|n IHn]; intros s0 acc Hacc; cbn [ofor sfor].
+  - repeat split; simpl; exact I.
+  - set (agO := fun (s1 : st) (acc' : oval val) =>
+            match upd with
+            | Some u => match eval s1 u with
+                        | (s2, inl _) => ofor eval truthy poll (exec_o fuel) n ((G ++ LS) ++ [0]) test upd body s2 [] acc'
+                        | (s2, inr x) => (s2, [], OExn x)
+                        end
+            | None => ofor eval truthy poll (exec_o fuel) n ((G ++ LS) ++ [0]) test upd body s1 [] acc'
+            end).
+    set (agS := fun (s1 : st) =>
+            match upd with
+            | Some u => match eval s1 u with
+                        | (s2, inl _) => sfor eval truthy poll (exec_s fuel) n (LS ++ [0]) test upd body s2
+                        | (s2, inr x) => (s2, SDone (CThrow x))
+                        end
+            | None => sfor eval truthy poll (exec_s fuel) n (LS ++ [0]) test upd body s1
+            end).
+    assert (Hag : forall s1 acc', is_res acc' = false -> simres0 LS (agO s1 acc') (agS s1)).
+    { intros s1 acc' Hacc'. unfold agO, agS. destruct upd as [u|]; [|apply IHn; assumption].
+      destruct (eval s1 u) as [s2 [v|x]]; [apply IHn; assumption|repeat split; simpl; reflexivity]. }
+    assert (Hgo : forall s'', simres0 LS
+       (match olist (exec_o fuel) s'' [] OEmpty body with
+        | (s1, L1, ONorm o) =>
+          match o with
+          | OBrk t => if mem t ((G ++ LS) ++ [0]) then (s1, L1, ONorm acc) else (s1, L1, ONorm o)
+          | OCont t => if mem t ((G ++ LS) ++ [0]) then
+              match upd with
+              | Some u => match eval s1 u with
+                          | (s2, inl _) => ofor eval truthy poll (exec_o fuel) n ((G ++ LS) ++ [0]) test upd body s2 L1 acc
+                          | (s2, inr x) => (s2, L1, OExn x)
+                          end
+              | None => ofor eval truthy poll (exec_o fuel) n ((G ++ LS) ++ [0]) test upd body s1 L1 acc
+              end else (s1, L1, ONorm o)
+          | ORet _ => (s1, L1, ONorm o)
+          | OEmpty =>
+              match upd with
+              | Some u => match eval s1 u with
+                          | (s2, inl _) => ofor eval truthy poll (exec_o fuel) n ((G ++ LS) ++ [0]) test upd body s2 L1 acc
+                          | (s2, inr x) => (s2, L1, OExn x)
+                          end
+              | None => ofor eval truthy poll (exec_o fuel) n ((G ++ LS) ++ [0]) test upd body s1 L1 acc
+              end
+          | OVal _ =>
+              match upd with
+              | Some u => match eval s1 u with
+                          | (s2, inl _) => ofor eval truthy poll (exec_o fuel) n ((G ++ LS) ++ [0]) test upd body s2 L1 o
+                          | (s2, inr x) => (s2, L1, OExn x)
+                          end
+              | None => ofor eval truthy poll (exec_o fuel) n ((G ++ LS) ++ [0]) test upd body s1 L1 o
+              end
+          end
+        | r => r
+        end)
+       (match slist (exec_s fuel) s'' body with
+        | (s1, SDone c) =>
+          match c with
+          | CBreak t => if mem t (LS ++ [0]) then (s1, SDone CNormal) else (s1, SDone c)
+          | CContinue t => if mem t (LS ++ [0]) then agS s1 else (s1, SDone c)
+          | CNormal => agS s1
+          | _ => (s1, SDone c)
+          end
+        | r => r
+        end)).
+    { intros s''.
+      pose proof (sim_list fuel IH body OEmpty s'' eq_refl Hwf) as Hs.
+      assert (Hnj : forall g, In g G -> nj_s g (snd (slist (exec_s fuel) s'' body))).
+      { intros g Hg. apply nj_slist_exec. auto. }
+      destruct (olist (exec_o fuel) s'' [] OEmpty body) as [[s1 L1] ro]. destruct (slist (exec_s fuel) s'' body) as [s2 rs].
+      destruct Hs as [Hst [Hrel HL]]. simpl in *. subst s2 L1.
+      pose proof (sim_loop_tail G LS s1 ro rs acc (agO s1) (agS s1) Hacc Hrel Hnj (Hag s1)) as T.
+      destruct ro as [o|v'|]; destruct rs as [c|]; simpl in Hrel; try contradiction; exact T. }
+    assert (Hacc0 : forall s', simres0 LS (s', [], ONorm acc) (s', SDone CNormal)).
+    { intros s'. repeat split; simpl. destruct acc; simpl in *; try exact I; discriminate. }
+    destruct test as [e|].
+    + destruct (eval s0 e) as [s' [v|x]]; [|repeat split; simpl; reflexivity].
+      destruct (truthy v); [|apply Hacc0].
+      destruct body as [|b0 bs]; [|apply Hgo].
+      destruct (poll s') as [s'' [x|]]; [repeat split; simpl; reflexivity|apply Hgo].
+    + destruct body as [|b0 bs]; [|apply Hgo].
+      destruct (poll s0) as [s'' [x|]]; [repeat split; simpl; reflexivity|apply Hgo].
+Qed.
+
 Lemma pop_snoc (X : list label) t : pop (X ++ [t]) = X.
 Proof. unfold pop. destruct (X ++ [t]) eqn:E; [destruct X; discriminate|]. rewrite <- E. apply removelast_last. Qed.
 
@@ -350,7 +628,7 @@ Proof.
   { repeat split; simpl; try exact I. now left. }
   cbn [Sem.exec_o Sem.exec_s]. destruct (poll s00) as [s0 [xp|]].
   { repeat split; simpl; try reflexivity. now left. }
-  destruct s as [e|l|e s1 s2|e body|l|l|e|l s|e|b c f]; cbn [Sem.exec_o Sem.exec_s].
+  destruct s as [e|l|e s1 s2|e body|body e|init test upd body|l|l|e|l s|e|b c f]; cbn [Sem.exec_o Sem.exec_s].
   - (* SExpr *)
     destruct (eval s0 e) as [s1 [v|x]]; repeat split; simpl; try exact I; try reflexivity; now left.
   - (* SBlock *)
@@ -386,6 +664,24 @@ Proof.
     pose proof (sim_while fuel IH e body G LS Hwf) as Hs.
     destruct (Hs (fun g Hg => eq_trans (eq_sym (targets_while g e body)) (HG g Hg)) fuel s0 OEmpty eq_refl) as [H1 [H2 H3]].
     repeat split; try assumption. now right.
+  - (* SDoWhile *)
+    rewrite wf_dowhile in Hwf.
+    pose proof (sim_dowhile fuel IH e body G LS Hwf) as Hs.
+    destruct (Hs (fun g Hg => eq_trans (eq_sym (targets_dowhile g e body)) (HG g Hg)) fuel s0 OEmpty eq_refl) as [H1 [H2 H3]].
+    repeat split; try assumption. now right.
+  - (* SFor *)
+    rewrite wf_for in Hwf.
+    pose proof (sim_for fuel IH test upd body G LS Hwf) as Hs.
+    assert (Hf : forall s1, simres G LS
+       (ofor eval truthy poll (exec_o fuel) fuel ((G ++ LS) ++ [0]) test upd body s1 [] OEmpty)
+       (sfor eval truthy poll (exec_s fuel) fuel (LS ++ [0]) test upd body s1)).
+    { intros s1.
+      destruct (Hs (fun g Hg => eq_trans (eq_sym (targets_for g init test upd body)) (HG g Hg)) fuel s1 OEmpty eq_refl) as [H1 [H2 H3]].
+      repeat split; try assumption. now right. }
+    destruct (poll s0) as [sq [xq|]]; [repeat split; simpl; try reflexivity; now right|].
+    destruct init as [i|]; [|apply Hf].
+    destruct (eval sq i) as [s1 [v|x]]; [apply Hf|].
+    repeat split; simpl; try reflexivity. now right.
   - (* SBreak *)
     repeat split; simpl; try (now left).
     destruct (mem l LS) eqn:E; [|reflexivity].
